@@ -162,11 +162,28 @@ Restart == /\ (cache # "-" \/ creates > 0)
            /\ UNCHANGED <<nc, inst, npid, node, now, lSince, rSince, faults>>
            /\ Hist([a |-> "Restart"])
 
-Next == /\ Len(h) < MaxLen /\ nc.exists /\ ~nc.deleting
-        /\ \/ \E f \in FaultKinds, st \in BOOLEAN : Rec(f, st)
-           \/ \E u, s, e, r, x \in BOOLEAN : NodeAppears(u, s, e, r, x)
-           \/ \E wh \in {"RemoveStartup", "RemoveEph", "Ready", "NotReady", "ReportRes"} : EnvNode(wh)
-           \/ Tick \/ Restart
+\* the NodeClaim is deleted before the finalizer landed: without a finalizer it disappears at once
+ClaimGone ==
+    /\ nc.exists /\ ~nc.finalizer /\ ~nc.deleting
+    /\ nc' = [nc EXCEPT !.exists = FALSE]
+    /\ UNCHANGED <<iv, cache, inst, creates, npid, node, now, lSince, rSince, faults>>
+    /\ Hist([a |-> "ClaimGone"])
+
+\* ... while the informer still hands the controller its copy: the finalizer patch gets NotFound and the
+\* reconcile ends there (no provider call for an object that no longer exists)
+RecGone ==
+    /\ ~nc.exists /\ iv.exists
+    /\ iv' = nc
+    /\ UNCHANGED <<nc, cache, inst, creates, npid, node, now, lSince, rSince, faults>>
+    /\ Hist([a |-> "Rec", f |-> "none", stale |-> 1, mainNth |-> 1, initNth |-> 1])
+
+Next == /\ Len(h) < MaxLen
+        /\ \/ /\ nc.exists /\ ~nc.deleting
+              /\ \/ \E f \in FaultKinds, st \in BOOLEAN : Rec(f, st)
+                 \/ \E u, s, e, r, x \in BOOLEAN : NodeAppears(u, s, e, r, x)
+                 \/ \E wh \in {"RemoveStartup", "RemoveEph", "Ready", "NotReady", "ReportRes"} : EnvNode(wh)
+                 \/ Tick \/ Restart \/ ClaimGone
+           \/ RecGone
 Spec == Init /\ [][Next]_vars
 
 \* ---------------------------------------------------------------- properties of the closed model
